@@ -1,7 +1,14 @@
 // Package vrand mirrors math/rand with fixed seeds so executions are deterministic.
 package vrand
 
-import "math/rand"
+import (
+	"math/rand"
+
+	"verif/vsched"
+)
+
+// ev: the package-level generator is shared state (happens-before fingerprints).
+func ev() { vsched.Event(vsched.OpYield, vsched.ObjRand, true) }
 
 type Rand = rand.Rand
 type Source = rand.Source
@@ -17,12 +24,12 @@ var global = rand.New(rand.NewSource(1))
 // Reset re-seeds the package-level generator (called at the start of every execution).
 func Reset() { global = rand.New(rand.NewSource(1)) }
 
-func Intn(n int) int       { return global.Intn(n) }
-func Int() int             { return global.Int() }
-func Int31n(n int32) int32 { return global.Int31n(n) }
-func Int63() int64         { return global.Int63() }
-func Int63n(n int64) int64 { return global.Int63n(n) }
-func Uint32() uint32       { return global.Uint32() }
-func Float64() float64     { return global.Float64() }
-func Perm(n int) []int     { return global.Perm(n) }
+func Intn(n int) int       { ev(); return global.Intn(n) }
+func Int() int             { ev(); return global.Int() }
+func Int31n(n int32) int32 { ev(); return global.Int31n(n) }
+func Int63() int64         { ev(); return global.Int63() }
+func Int63n(n int64) int64 { ev(); return global.Int63n(n) }
+func Uint32() uint32       { ev(); return global.Uint32() }
+func Float64() float64     { ev(); return global.Float64() }
+func Perm(n int) []int     { ev(); return global.Perm(n) }
 func Seed(s int64)         { global = rand.New(rand.NewSource(s)) }
